@@ -571,6 +571,13 @@ func main() {
 			registerOne(s, false, both, sd)
 			ss := 1 + r.Intn(8)
 			registerOne(s, phase%2 == 0, single, ss)
+			// a registration with size 0 of a CID that carries no registration is a no-op, however often it is made
+			// (a count of live registrations kept beside the registry must not drift): many of them, then the
+			// live CIDs are still framed with their sizes (the sequences below)
+			for k := 0; k < 64; k++ {
+				registerOne(s, true, 0xfd, 0)
+				registerOne(s, false, 0xfc, 0)
+			}
 			prop := func(c byte, n int) lorawan.Payload {
 				return &lorawan.MACCommand{CID: lorawan.CID(c), Payload: &lorawan.ProprietaryMACCommandPayload{Bytes: r.Bytes(n)}}
 			}
